@@ -29,6 +29,9 @@ const (
 	c18TargetUnm    = 1 // (*Bytecode).UnmarshalBinary
 	c18TargetObject = 2 // DecodeObject
 	c18NumTargets   = 3
+	// replay-only pseudo targets
+	c18ReplayChunk     = 3 // short-read metamorphic oracle on DecodeBytecodeFrom
+	c18ReplayReaderErr = 4 // reader fails after the recorded bytes
 )
 
 var c18TargetNames = []string{"DecodeBytecodeFrom", "Bytecode.UnmarshalBinary", "DecodeObject"}
@@ -58,6 +61,9 @@ func panicSite(prefixes ...string) string {
 
 func msgClass(r any) string {
 	s := fmt.Sprint(r)
+	if i := strings.Index(s, "interface conversion:"); i >= 0 {
+		s = s[:i] + "interface conversion"
+	}
 	s = hexRe.ReplaceAllString(s, "X")
 	s = numRe.ReplaceAllString(s, "N")
 	if len(s) > 70 {
@@ -161,7 +167,7 @@ type c18Input struct {
 	data   []byte
 }
 
-func c18AllocBound(n int) uint64 { return 1<<20 + 256*uint64(n) }
+func c18AllocBound(n int) uint64 { return 16<<20 + 256*uint64(n) }
 
 func caseTape(target int, data []byte) []uint64 {
 	t := make([]uint64, 0, len(data)+2)
@@ -181,7 +187,7 @@ func c18Check(rc *sim.RunCtx, target int, data []byte, mm *ugo.ModuleMap, what s
 			"%s panicked on %s (len %d): %s", c18TargetNames[target], what, len(data), res.pmsg)
 	} else if res.alloc > c18AllocBound(len(data)) {
 		rc.FailCase(caseTape(target, data), "alloc-out-of-proportion", "alloc:"+c18TargetNames[target],
-			"%s allocated %d bytes for a %d-byte input (%s); bound is 1 MiB + 256×len", c18TargetNames[target], res.alloc, len(data), what)
+			"%s allocated %d bytes for a %d-byte input (%s); bound is 16 MiB + 256×len", c18TargetNames[target], res.alloc, len(data), what)
 	}
 	if res.ok {
 		rc.Probe("corrupt-input-decoded-ok")
@@ -191,17 +197,61 @@ func c18Check(rc *sim.RunCtx, target int, data []byte, mm *ugo.ModuleMap, what s
 
 var errInjected = errors.New("injected read error")
 
+// c18ChunkOracle: delivering the same bytes in short reads never changes the
+// result (success and decoded program; error texts are not compared because
+// fixObjects reports the first mismatch in Go map order). chunk 0 = try 1..17.
+func c18ChunkOracle(rc *sim.RunCtx, d []byte, mm *ugo.ModuleMap, chunk int) {
+	base := c18Decode(c18TargetFrom, d, mm, nil)
+	rc.SubEvals++
+	lo, hi := chunk, chunk
+	if chunk == 0 {
+		lo, hi = 1, 17
+	}
+	for c := lo; c <= hi; c++ {
+		chunked := c18Decode(c18TargetFrom, d, mm, &faultyReader{data: d, chunk: c, failAt: -1})
+		rc.SubEvals++
+		if chunked.panic != "" {
+			rc.FailCase(caseTape(c18TargetFrom, d), "decoder-panic", chunked.panic, "panic with %d-byte reads: %s", c, chunked.pmsg)
+		} else if base.panic == "" && (base.ok != chunked.ok || base.fp != chunked.fp) {
+			rc.FailCase(caseTape(c18ReplayChunk, d), "chunking-changes-result", "chunking-changes-result",
+				"decoding with %d-byte reads differs from decoding at once: ok=%v err=%v vs ok=%v err=%v", c, base.ok, base.err, chunked.ok, chunked.err)
+		}
+	}
+}
+
+// c18ReaderErrOracle: a reader error after k bytes is returned by the decoder.
+func c18ReaderErrOracle(rc *sim.RunCtx, d []byte, k, chunk int, mm *ugo.ModuleMap) {
+	fr := &faultyReader{data: d, chunk: chunk, failAt: k, err: errInjected}
+	failed := c18Decode(c18TargetFrom, d, mm, fr)
+	rc.SubEvals++
+	if failed.panic != "" {
+		rc.FailCase(caseTape(c18TargetFrom, d[:k]), "decoder-panic", failed.panic, "panic with reader failing after %d bytes: %s", k, failed.pmsg)
+	} else if !errors.Is(failed.err, errInjected) {
+		rc.FailCase(caseTape(c18ReplayReaderErr, d[:k]), "reader-error-lost", "reader-error-lost",
+			"reader failed after %d of %d bytes but decode returned ok=%v err=%v", k, len(d), failed.ok, failed.err)
+	}
+}
+
 func c18Run(rc *sim.RunCtx) {
 	mm := newModuleMap(fixedModules)
 	if rc.T.IsReplay() {
 		// replay: the tape is the failing case itself: target, length, bytes
-		target := rc.T.Draw(c18NumTargets)
+		target := rc.T.Draw(c18NumTargets + 2)
 		n := rc.T.Draw(1 << 20)
 		data := make([]byte, n)
 		for i := range data {
 			data[i] = byte(rc.T.Draw(256))
 		}
-		c18Check(rc, target, data, mm, "replayed input")
+		switch target {
+		case c18ReplayChunk:
+			c18ChunkOracle(rc, data, mm, 0)
+			target = c18TargetFrom
+		case c18ReplayReaderErr:
+			c18ReaderErrOracle(rc, data, len(data), 7, mm)
+			target = c18TargetFrom
+		default:
+			c18Check(rc, target, data, mm, "replayed input")
+		}
 		rc.Decoded = map[string]any{"target": c18TargetNames[target], "input_hex": fmt.Sprintf("%x", data)}
 		return
 	}
@@ -359,29 +409,11 @@ func c18Run(rc *sim.RunCtx) {
 			if kind == 7 {
 				d[r(L)] ^= byte(1 + r(255))
 			}
-			base := c18Decode(c18TargetFrom, d, mm, nil)
-			rc.SubEvals++
-			chunk := 1 + r(17)
-			chunked := c18Decode(c18TargetFrom, d, mm, &faultyReader{data: d, chunk: chunk, failAt: -1})
-			rc.SubEvals++
+			c18ChunkOracle(rc, d, mm, 1+r(17))
 			rc.Fault("short-reads")
-			if chunked.panic != "" {
-				rc.FailCase(caseTape(c18TargetFrom, d), "decoder-panic", chunked.panic, "panic with %d-byte reads: %s", chunk, chunked.pmsg)
-			} else if base.panic == "" && (base.ok != chunked.ok || base.fp != chunked.fp || fmt.Sprint(base.err) != fmt.Sprint(chunked.err)) {
-				rc.FailCase(caseTape(c18TargetFrom, d), "chunking-changes-result", "chunking-changes-result",
-					"decoding with %d-byte reads differs from decoding at once: %v/%v vs %v/%v", chunk, base.ok, base.err, chunked.ok, chunked.err)
-			}
 			k := r(L + 1)
-			fr := &faultyReader{data: d, chunk: 1 + r(64), failAt: k, err: errInjected}
-			failed := c18Decode(c18TargetFrom, d, mm, fr)
-			rc.SubEvals++
+			c18ReaderErrOracle(rc, d, k, 1+r(64), mm)
 			rc.Fault("reader-error")
-			if failed.panic != "" {
-				rc.FailCase(caseTape(c18TargetFrom, d[:k]), "decoder-panic", failed.panic, "panic with reader failing after %d bytes: %s", k, failed.pmsg)
-			} else if !errors.Is(failed.err, errInjected) {
-				rc.FailCase(caseTape(c18TargetFrom, d[:k]), "reader-error-lost", "reader-error-lost",
-					"reader failed after %d of %d bytes but decode returned ok=%v err=%v", k, L, failed.ok, failed.err)
-			}
 			continue
 		}
 		c18Check(rc, tg, d, mm, fmt.Sprintf("%s multi-fault kind %d", in.name, kind))
@@ -408,7 +440,7 @@ func init() {
 			"(DecodeBytecodeFrom, Bytecode.UnmarshalBinary, DecodeObject); sampled runs apply double corruption, lost sector, misdirected write, garbage tail, truncation+corruption, 0xFF runs, short reads and reader errors. " +
 			"evaluations = decode calls on faulted inputs; a run is non-trivial when it executed its whole fault list; distinct = distinct (program, batch) pairs.",
 		Assumptions: []string{
-			"allocation 'out of proportion' is read as more than 1 MiB + 256 × input length of heap allocated by one decode call (runtime/metrics /gc/heap/allocs:bytes delta)",
+			"allocation 'out of proportion' is read as more than 16 MiB + 256 × input length of heap allocated by one decode call (runtime/metrics /gc/heap/allocs:bytes delta)",
 			"a decode that succeeds on corrupted bytes is legal; its result is not executed",
 			"fatal out-of-memory deaths are caught by running workers under ulimit -v and attributing the crash to the input in progress",
 		},
